@@ -181,7 +181,21 @@ func (b *Builder) build(t reflect.Type, depth int, field string) reflect.Value {
 		if b.C.Int(0, 2, "unsafe-ptr") != 0 {
 			v.SetPointer(unsafe.Pointer(new(int64)))
 		}
-	case reflect.Interface, reflect.Func, reflect.Chan:
+	case reflect.Interface:
+		if t.NumMethod() == 0 {
+			// any: a dynamic value that refers to memory (or a plain one, or nil)
+			switch b.C.Int(0, 5, "iface-dyn") {
+			case 1:
+				v.Set(b.build(reflect.TypeOf((*int)(nil)), depth+1, field))
+			case 2:
+				v.Set(b.build(reflect.TypeOf([]int(nil)), depth+1, field))
+			case 3:
+				v.Set(b.build(reflect.TypeOf(map[string]int(nil)), depth+1, field))
+			case 4:
+				v.Set(b.build(reflect.TypeOf(0), depth+1, field))
+			}
+		}
+	case reflect.Func, reflect.Chan:
 		// left zero
 	}
 	return v
